@@ -16,32 +16,50 @@ Section Mach.
   Variable C : list (list cb).    (* the callback table (never changes in the fragment) *)
   Let n : nat := List.length T.
 
+  (* a marker that stands in a pending callback list for "the rest of a callback that has opened
+     an evaluation": when it is reached, the notification counter of the engine advances (this is
+     all that is left of the service-started notification after an immediate completion).  The
+     marker is a parallel-loop callback, which no transition of the fragment carries *)
+  Definition MARK : cb :=
+    CbParLoop 0 (LimInt 0) 0 {| c_name := 0; c_ins := []; c_outs := [] |} {| st_task := 0; st_path := [] |} 0 0 0.
+  Definition marks (j : nat) : list cb := repeat MARK j.
+  Definition bumpn (j : nat) (s : NS) : NS := s <| ns_nnot := j + ns_nnot s |>.
+
+  Lemma bump_bumpn : forall s, bump s = bumpn 1 s. Proof. reflexivity. Qed.
+  Lemma bumpn_0 : forall s, bumpn 0 s = s. Proof. intros []; reflexivity. Qed.
+  Lemma bumpn_add : forall a b s, bumpn a (bumpn b s) = bumpn (a + b) s.
+  Proof. intros a b []. unfold bumpn. cbn. rewrite Nat.add_assoc. reflexivity. Qed.
+
   (* ---- a list of callbacks run one after the other (none of them touches the tables) ---- *)
   Inductive RunList : list cb -> NS -> NS -> Prop :=
   | rl_nil : forall s, RunList [] s s
-  | rl_cons : forall c l s s1 s', RunCb tasks env c s s1 -> ns_cbs s1 = ns_cbs s ->
-                                  RunList l s1 s' -> RunList (c :: l) s s'.
+  | rl_cons : forall c l s s1 s', RunCb tasks env c s s1 -> ns_cbs s1 = ns_cbs s -> is_parloop_cb c = false ->
+                                  RunList l s1 s' -> RunList (c :: l) s s'
+  | rl_mark : forall l s s', RunList l (bump s) s' -> RunList (MARK :: l) s s'.
 
   Lemma RunList_app : forall l1 l2 s s1 s', RunList l1 s s1 -> RunList l2 s1 s' -> RunList (l1 ++ l2) s s'.
   Proof.
-    induction l1 as [|c l1 IH]; intros l2 s s1 s' H1 H2; inversion H1; subst; cbn [app]; [exact H2|].
-    econstructor; [eassumption|assumption|]. eapply IH; eassumption.
+    intros l1 l2 s s1 s' H1 H2. induction H1; cbn [app]; [exact H2| |].
+    - econstructor; [eassumption|assumption|assumption|]. apply IHRunList. exact H2.
+    - apply rl_mark. apply IHRunList. exact H2.
   Qed.
 
   Lemma RunList_cbs : forall l s s', RunList l s s' -> ns_cbs s' = ns_cbs s.
-  Proof. induction 1; [reflexivity|congruence]. Qed.
+  Proof. induction 1; [reflexivity|congruence|exact IHRunList]. Qed.
 
   Lemma RunList_RunFrom : forall t l pre s s',
-      RunList l s s' -> nth t (ns_cbs s) [] = pre ++ l ->
+      RunList l s s' -> no_parloop l = true -> nth t (ns_cbs s) [] = pre ++ l ->
       RunFrom tasks env t (pre ++ l) (List.length pre) s s'.
   Proof.
-    intros t. induction l as [|c l IH]; intros pre s s' H Hn; inversion H; subst.
+    intros t. induction l as [|c l IH]; intros pre s s' H Hnp Hn; inversion H; subst.
+    3:{ discriminate Hnp. }
     - apply rf_end; [exact Hn|]. apply nth_error_None. rewrite app_nil_r. lia.
-    - eapply rf_cb; [exact Hn| |eassumption|].
+    - cbn [no_parloop forallb] in Hnp. apply andb_prop in Hnp. destruct Hnp as [_ Hnp]. fold (no_parloop l) in Hnp.
+      eapply rf_cb; [exact Hn| |eassumption|].
       + rewrite nth_error_app2, Nat.sub_diag by lia. reflexivity.
       + replace (pre ++ c :: l) with ((pre ++ [c]) ++ l) by (rewrite <- app_assoc; reflexivity).
         replace (S (List.length pre)) with (List.length (pre ++ [c])) by (rewrite app_length; cbn; lia).
-        apply IH; [assumption|]. rewrite <- app_assoc. cbn [app]. congruence.
+        apply IH; [assumption|exact Hnp|]. rewrite <- app_assoc. cbn [app]. congruence.
   Qed.
 
   (* nothing can fire *)
@@ -50,14 +68,19 @@ Section Mach.
   (* the callback [c], run in [s], sends an event that is accepted: a complete evaluation
      starts in [s2], and the callback returns the state in which that evaluation ends *)
   Definition Opens (c : cb) (s s2 : NS) : Prop :=
-    ns_cbs s2 = ns_cbs s /\ forall s', EvalTo tasks env s2 s' -> RunCb tasks env c s s'.
+    ns_cbs s2 = ns_cbs s /\ is_parloop_cb c = false /\ forall s', EvalTo tasks env s2 s' -> RunCb tasks env c s s'.
+  (* ... and the callback goes on after the evaluation: what it still does is the marker's step *)
+  Definition OpensB (c : cb) (s s2 : NS) : Prop :=
+    ns_cbs s2 = ns_cbs s /\ is_parloop_cb c = false /\ forall s', EvalTo tasks env s2 s' -> RunCb tasks env c s (bump s').
 
   Inductive Run : NS -> list (list cb) -> NS -> Prop :=
   | run_end : forall s, ns_cbs s = C -> ns_trans s = T -> dead s -> Run s [[]] s
   | run_pop : forall s l K sF, ns_trans s = T -> dead s -> Run s (l :: K) sF -> Run s ([] :: l :: K) sF
-  | run_cb : forall c l K s s1 sF, RunCb tasks env c s s1 -> ns_cbs s1 = ns_cbs s ->
+  | run_cb : forall c l K s s1 sF, RunCb tasks env c s s1 -> ns_cbs s1 = ns_cbs s -> is_parloop_cb c = false ->
                                    Run s1 (l :: K) sF -> Run s ((c :: l) :: K) sF
+  | run_mark : forall l K s sF, Run (bump s) (l :: K) sF -> Run s ((MARK :: l) :: K) sF
   | run_push : forall c l K s s2 sF, Opens c s s2 -> Run s2 ([] :: l :: K) sF -> Run s ((c :: l) :: K) sF
+  | run_pushb : forall c l K s s2 sF, OpensB c s s2 -> Run s2 ([] :: (MARK :: l) :: K) sF -> Run s ((c :: l) :: K) sF
   | run_fire : forall s t tr K sF,
       ns_trans s = T -> t < n -> nth_error T t = Some tr -> enabled s tr = true ->
       (forall j, j < t -> disabled s j) -> no_parloop (nth t C []) = true ->
@@ -65,8 +88,11 @@ Section Mach.
 
   Lemma Run_cbs : forall s K sF, Run s K sF -> ns_cbs s = C.
   Proof.
-    induction 1 as [s Hc _ _|s l K sF _ _ _ IH|c l K s s1 sF _ Hc _ IH|c l K s s2 sF [Hc _] _ IH|s t tr K sF _ _ _ _ _ _ _ IH].
+    induction 1 as [s Hc _ _|s l K sF _ _ _ IH|c l K s s1 sF _ Hc _ _ IH|l K s sF _ IH|c l K s s2 sF [Hc _] _ IH
+                    |c l K s s2 sF [Hc _] _ IH|s t tr K sF _ _ _ _ _ _ _ IH].
     - exact Hc.
+    - exact IH.
+    - congruence.
     - exact IH.
     - congruence.
     - congruence.
@@ -91,25 +117,37 @@ Section Mach.
   Theorem Run_Chain : forall s K sF, Run s K sF -> Chain s K sF.
   Proof.
     intros s K sF H. pose proof (Run_cbs _ _ _ H) as Hcs. revert Hcs.
-    induction H as [s Hc Ht Hd|s l K sF Ht Hd Hr IH|c l K s s1 sF Hcb Hc Hr IH|c l K s s2 sF [Hc Hop] Hr IH
+    induction H as [s Hc Ht Hd|s l K sF Ht Hd Hr IH|c l K s s1 sF Hcb Hc Hnpc Hr IH|l K s sF Hr IH
+                    |c l K s s2 sF (Hc & Hnpc & Hop) Hr IH|c l K s s2 sF (Hc & Hnpc & Hop) Hr IH
                     |s t tr K sF Ht Htn Htr Hen Hdis Hnp Hr IH]; intro Hcs.
     - cbn [Chain]. exists s. split; [apply Lev_dead; assumption|reflexivity].
     - cbn [Chain]. exists s. split; [apply Lev_dead; assumption|]. apply IH. exact Hcs.
     - cbn [Chain] in *. destruct (IH ltac:(congruence)) as (s' & (sa & Hl & Hsc & Hc' & Ht') & Hch).
-      exists s'. split; [|exact Hch]. exists sa. split; [econstructor; eassumption|]. split; [exact Hsc|]. split; assumption.
+      exists s'. split; [|exact Hch]. exists sa. split; [eapply rl_cons; eassumption|]. split; [exact Hsc|]. split; assumption.
+    - cbn [Chain] in *. destruct (IH Hcs) as (s' & (sa & Hl & Hsc & Hc' & Ht') & Hch).
+      exists s'. split; [|exact Hch]. exists sa. split; [apply rl_mark; exact Hl|]. split; [exact Hsc|]. split; assumption.
     - cbn [Chain] in *. destruct (IH ltac:(congruence)) as (sa & (sb & Hl0 & Hsc0 & Hca & Hta) & s' & (sc & Hl & Hsc & Hc' & Ht') & Hch).
       inversion Hl0; subst sb.
       assert (Ht2 : ns_trans s2 = T).
       { inversion Hr; subst; assumption. }
       assert (Hev : EvalTo tasks env s2 sa) by (apply ScanTo_EvalTo; rewrite Ht2; exact Hsc0).
       exists s'. split; [|exact Hch]. exists sc. split; [|split; [exact Hsc|split; assumption]].
-      econstructor; [apply Hop; exact Hev|congruence|exact Hl].
+      eapply rl_cons; [apply Hop; exact Hev|congruence|exact Hnpc|exact Hl].
+    - cbn [Chain] in *. destruct (IH ltac:(congruence)) as (sa & (sb & Hl0 & Hsc0 & Hca & Hta) & s' & (sc & Hl & Hsc & Hc' & Ht') & Hch).
+      inversion Hl0; subst sb.
+      assert (Ht2 : ns_trans s2 = T).
+      { inversion Hr; subst; assumption. }
+      assert (Hev : EvalTo tasks env s2 sa) by (apply ScanTo_EvalTo; rewrite Ht2; exact Hsc0).
+      exists s'. split; [|exact Hch]. exists sc. split; [|split; [exact Hsc|split; assumption]].
+      inversion Hl as [| ? ? ? ? ? Hbad _ Hnm _ | ? ? ? Hl' ]; subst; [discriminate Hnm|].
+      eapply rl_cons; [apply Hop; exact Hev|idtac|exact Hnpc|exact Hl'].
+      change (ns_cbs (bump sa)) with (ns_cbs sa). congruence.
     - cbn [Chain] in *. destruct (IH Hcs) as (s' & (sa & Hl & Hsc & Hc' & Ht') & Hch).
       exists s'. split; [|exact Hch]. exists s. split; [constructor|]. split; [|split; assumption].
       eapply (ScanTo_step tasks env n s t tr (nth t C []) sa s'); try eassumption.
       + rewrite Ht. exact Htr.
       + rewrite Hcs. reflexivity.
-      + apply (RunList_RunFrom t (nth t C []) [] (fire_ns tr s) sa Hl). change (ns_cbs (fire_ns tr s)) with (ns_cbs s).
+      + apply (RunList_RunFrom t (nth t C []) [] (fire_ns tr s) sa Hl Hnp). change (ns_cbs (fire_ns tr s)) with (ns_cbs s).
         rewrite Hcs. reflexivity.
   Qed.
 
@@ -129,14 +167,29 @@ Section Mach.
   Lemma MS_trans : forall a b c, MS a b -> MS b c -> MS a c.
   Proof. intros a b c H1 H2 sF H. apply H1, H2, H. Qed.
 
-  Lemma MS_cb : forall c l K s s1, RunCb tasks env c s s1 -> ns_cbs s1 = ns_cbs s -> MS (s, (c :: l) :: K) (s1, l :: K).
-  Proof. intros c l K s s1 H Hc sF Hr. cbn [fst snd] in *. eapply run_cb; eassumption. Qed.
+  Lemma MS_cb : forall c l K s s1, RunCb tasks env c s s1 -> ns_cbs s1 = ns_cbs s -> is_parloop_cb c = false ->
+                                   MS (s, (c :: l) :: K) (s1, l :: K).
+  Proof. intros c l K s s1 H Hc Hnp sF Hr. cbn [fst snd] in *. eapply run_cb; eassumption. Qed.
+
+  Lemma MS_mark : forall l K s, MS (s, (MARK :: l) :: K) (bump s, l :: K).
+  Proof. intros l K s sF Hr. cbn [fst snd] in *. apply run_mark. exact Hr. Qed.
+
+  Lemma MS_marks : forall j l K s, MS (s, (marks j ++ l) :: K) (bumpn j s, l :: K).
+  Proof.
+    induction j as [|j IH]; intros l K s; [rewrite bumpn_0; apply MS_refl|].
+    cbn [marks repeat app]. eapply MS_trans; [apply MS_mark|]. eapply MS_trans; [apply IH|].
+    rewrite bump_bumpn, bumpn_add. replace (j + 1) with (S j) by lia. apply MS_refl.
+  Qed.
 
   Lemma MS_list : forall l1 l K s s1, RunList l1 s s1 -> MS (s, (l1 ++ l) :: K) (s1, l :: K).
   Proof.
-    induction l1 as [|c l1 IH]; intros l K s s1 H; inversion H; subst; cbn [app]; [apply MS_refl|].
-    eapply MS_trans; [apply MS_cb; eassumption|]. apply IH. assumption.
+    intros l1 l K s s1 H. induction H; cbn [app]; [apply MS_refl| |].
+    - eapply MS_trans; [apply MS_cb; eassumption|]. exact IHRunList.
+    - eapply MS_trans; [apply MS_mark|]. exact IHRunList.
   Qed.
+
+  Lemma MS_pushb : forall c l K s s2, OpensB c s s2 -> MS (s, (c :: l) :: K) (s2, [] :: (MARK :: l) :: K).
+  Proof. intros c l K s s2 H sF Hr. cbn [fst snd] in *. eapply run_pushb; eassumption. Qed.
 
   Lemma MS_push : forall c l K s s2, Opens c s s2 -> MS (s, (c :: l) :: K) (s2, [] :: l :: K).
   Proof. intros c l K s s2 H sF Hr. cbn [fst snd] in *. eapply run_push; eassumption. Qed.
@@ -150,21 +203,50 @@ Section Mach.
       MS (s, [] :: K) (fire_ns tr s, nth t C [] :: K).
   Proof. intros s t tr K Ht Htn Htr Hen Hd Hnp sF Hr. cbn [fst snd] in *. eapply run_fire; eassumption. Qed.
 
-  (* [k] finished evaluations on top of a stack *)
-  Definition Unw (k : nat) (K : list (list cb)) : list (list cb) := repeat [] k ++ K.
+  (* finished evaluations on top of a stack: under each of them lies what is left of the callback
+     list of the transition whose callback opened it -- nothing but, possibly, markers ([ms]
+     counts them) *)
+  Definition UnwE (ms : list nat) (K : list (list cb)) : list (list cb) := map marks ms ++ K.
 
-  Lemma Unw_0 : forall K, Unw 0 K = K. Proof. reflexivity. Qed.
-  Lemma Unw_S : forall k K, Unw (S k) K = [] :: Unw k K. Proof. reflexivity. Qed.
-  Lemma Unw_S' : forall k K, Unw (S k) K = Unw k ([] :: K).
-  Proof. intros k K. unfold Unw. induction k as [|k IH]; [reflexivity|]. cbn [repeat app] in *. rewrite IH. reflexivity. Qed.
-  Lemma Unw_add : forall a b K, Unw a (Unw b K) = Unw (a + b) K.
-  Proof. intros a b K. unfold Unw. rewrite app_assoc, <- repeat_app. reflexivity. Qed.
+  Lemma UnwE_nil : forall K, UnwE [] K = K. Proof. reflexivity. Qed.
+  Lemma UnwE_cons : forall m ms K, UnwE (m :: ms) K = marks m :: UnwE ms K. Proof. reflexivity. Qed.
+  Lemma UnwE_app : forall a b K, UnwE a (UnwE b K) = UnwE (a ++ b) K.
+  Proof. intros a b K. unfold UnwE. rewrite map_app, app_assoc. reflexivity. Qed.
+  Lemma UnwE_0 : forall ms K, [] :: UnwE ms K = UnwE (0 :: ms) K. Proof. reflexivity. Qed.
+  Lemma UnwE_snoc0 : forall ms K, UnwE ms ([] :: K) = UnwE (ms ++ [0]) K.
+  Proof. intros ms K. change ([] :: K) with (UnwE [0] K). apply UnwE_app. Qed.
+  Definition sumn (ms : list nat) : nat := fold_right Nat.add 0 ms.
+  Lemma sumn_app : forall a b, sumn (a ++ b) = sumn a + sumn b.
+  Proof. induction a as [|x a IH]; intro b; [reflexivity|]. unfold sumn in *. cbn [app fold_right]. rewrite IH. lia. Qed.
 
-  (* the evaluations that have nothing left to do return one after the other *)
-  Lemma MS_unwind : forall k l K s, ns_trans s = T -> dead s -> MS (s, Unw k (l :: K)) (s, l :: K).
+  Lemma dead_bumpn : forall j s, dead s -> dead (bumpn j s).
+  Proof. intros j s H. exact H. Qed.
+
+  (* the evaluations that have nothing left to do return one after the other; the markers are
+     passed on the way *)
+  Lemma MS_unwindE : forall ms l K s, ns_trans s = T -> dead s ->
+      MS (s, [] :: UnwE ms (l :: K)) (bumpn (sumn ms) s, l :: K).
   Proof.
-    induction k as [|k IH]; intros l K s Ht Hd; [apply MS_refl|].
-    rewrite Unw_S'. eapply MS_trans; [apply IH; assumption|]. apply MS_pop; assumption.
+    induction ms as [|m ms IH]; intros l K s Ht Hd.
+    - rewrite UnwE_nil. change (sumn []) with 0. rewrite bumpn_0. apply MS_pop; assumption.
+    - rewrite UnwE_cons. eapply MS_trans; [apply MS_pop; assumption|].
+      rewrite <- (app_nil_r (marks m)). eapply MS_trans; [apply MS_marks|].
+      eapply MS_trans; [apply IH; [exact Ht|apply dead_bumpn; exact Hd]|].
+      rewrite bumpn_add. replace (sumn ms + m) with (sumn (m :: ms)) by (unfold sumn; cbn [fold_right]; lia).
+      apply MS_refl.
+  Qed.
+
+  (* ... down to the evaluation under them, which goes on *)
+  Lemma MS_unwind0 : forall ms K s, ns_trans s = T -> dead s ->
+      MS (s, [] :: UnwE ms K) (bumpn (sumn ms) s, [] :: K).
+  Proof.
+    induction ms as [|m ms IH]; intros K s Ht Hd.
+    - rewrite UnwE_nil. change (sumn []) with 0. rewrite bumpn_0. apply MS_refl.
+    - rewrite UnwE_cons. eapply MS_trans; [apply MS_pop; assumption|].
+      rewrite <- (app_nil_r (marks m)). eapply MS_trans; [apply MS_marks|].
+      eapply MS_trans; [apply IH; [exact Ht|apply dead_bumpn; exact Hd]|].
+      rewrite bumpn_add. replace (sumn ms + m) with (sumn (m :: ms)) by (unfold sumn; cbn [fold_right]; lia).
+      apply MS_refl.
   Qed.
 
   (* the scan of the current evaluation goes on *)
@@ -183,10 +265,11 @@ Section Mach.
   Proof. intros l a b H rest K. apply MS_list. exact H. Qed.
   Lemma Starts_app : forall l1 l2 a b c, Starts l1 a b -> Starts l2 b c -> Starts (l1 ++ l2) a c.
   Proof. intros l1 l2 a b c H1 H2 rest K. rewrite <- app_assoc. eapply MS_trans; [apply H1|apply H2]. Qed.
-  Lemma Starts_cons : forall c l a b d, RunCb tasks env c a b -> ns_cbs b = ns_cbs a -> Starts l b d -> Starts (c :: l) a d.
+  Lemma Starts_cons : forall c l a b d, RunCb tasks env c a b -> ns_cbs b = ns_cbs a -> is_parloop_cb c = false ->
+                                        Starts l b d -> Starts (c :: l) a d.
   Proof.
-    intros c l a b d H Hc H2. change (c :: l) with ([c] ++ l). eapply Starts_app; [|exact H2].
-    apply Starts_RunList. econstructor; [exact H|exact Hc|constructor].
+    intros c l a b d H Hc Hnp H2. change (c :: l) with ([c] ++ l). eapply Starts_app; [|exact H2].
+    apply Starts_RunList. eapply rl_cons; [exact H|exact Hc|exact Hnp|constructor].
   Qed.
 
   Lemma Steps_fire : forall s t tr s1,
